@@ -35,8 +35,8 @@ func init() {
 }
 
 var malformKinds = []string{
-	"iss:empty", "iss:one", "iss:trunc", "iss:big", "iss:garbage",
-	"aud:empty", "aud:one", "aud:trunc", "aud:big",
+	"iss:empty", "iss:one", "iss:trunc", "iss:big", "iss:garbage", "iss:long", "iss:short1", "iss:prefixonly",
+	"aud:empty", "aud:one", "aud:trunc", "aud:big", "aud:long", "aud:prefixonly",
 	"sig:empty", "sig:codeonly", "sig:trunc", "sig:big", "sig:zerosize", "sig:nonstandard",
 	"att:empty", "att:emptycan", "att:emptywith", "att:nbint", "att:nbbytes", "att:nblist", "att:nbnull", "att:nbdeep", "att:many",
 	"prf:dup", "prf:dangling", "prf:many",
@@ -84,6 +84,16 @@ func malformToken(m *udm.UCANModel, edits []string) (ipld.Block, error) {
 				nv = bytes.Repeat([]byte{0xed}, 2000)
 			case "garbage":
 				nv = append([]byte{0x9d, 0x1a}, bytes.Repeat([]byte{0xff, 0x00}, 20)...)
+			case "long": // a well-formed principal followed by one to three more bytes
+				nv = append(append([]byte{}, cur...), []byte{0x01, 0x02, 0x03}[:1+len(cur)%3]...)
+			case "short1": // one byte missing at the end
+				if len(cur) > 0 {
+					nv = cur[:len(cur)-1]
+				}
+			case "prefixonly": // just the multicodec prefix of the principal kind
+				if len(cur) >= 2 {
+					nv = cur[:2]
+				}
 			}
 			if f == "iss" {
 				m.Iss = nv
